@@ -14,6 +14,7 @@ type verifDump struct {
 	paths []string
 	vals  []float64
 	attrs []string
+	aints []int32 // values of the int32 attributes, in listing order
 	errs  int
 }
 
@@ -36,6 +37,14 @@ func verifDumpFile(name string) (d verifDump, openErr error) {
 				d.errs++
 			} else {
 				d.attrs = append(d.attrs, l...)
+				for _, an := range l {
+					v, err := ds.ReadAttribute(an) // the value decoder runs on whatever the file holds
+					if err != nil {
+						d.errs++
+					} else if x, ok := v.(int32); ok {
+						d.aints = append(d.aints, x)
+					}
+				}
 			}
 		}
 	})
@@ -96,6 +105,11 @@ func verifTruncateScriptOpt(ver uint8, lo, hi int, chunked bool) {
 			}
 		}
 		vrt.Assert(len(cut.attrs) == len(intact.attrs), "attributes-silently-missing")
+		if len(cut.aints) == len(intact.aints) {
+			for i := range cut.aints {
+				vrt.Assert(cut.aints[i] == intact.aints[i], "different-values-after-truncation")
+			}
+		}
 	}
 }
 
@@ -163,6 +177,11 @@ func VerifH_C17_api_truncate_dense() {
 	vrt.Assert(len(cut.paths) == len(intact.paths) || cut.errs > 0, "members-silently-missing")
 	if cut.errs == 0 {
 		vrt.Assert(len(cut.attrs) == len(intact.attrs), "attributes-silently-missing")
+		if len(cut.aints) == len(intact.aints) {
+			for i := range cut.aints {
+				vrt.Assert(cut.aints[i] == intact.aints[i], "different-values-after-truncation")
+			}
+		}
 		vrt.Assert(len(cut.vals) == len(intact.vals), "values-silently-missing")
 	}
 }
